@@ -615,7 +615,7 @@ def shrinks(t, prop):
 EVIDENCE = {"C18": {
     "components": {"real": ["SeismicRecording3C, TimeSeries (all editing methods, copy constructors, split, save/load), json, stdlib I/O stack"],
                    "stub": ["the raw storage device (SimFS, fault-injecting)"]},
-    "assumptions": ["edits of meta are top-level assignments; nested meta values shared between a copy and its source are probe-counted, "
+    "assumptions": ["excluded: NaN trim bounds, the meta entry a refused trim leaves behind, nested meta values shared between a copy and its source (the property speaks of sample storage), non-string meta keys; a NaN sample equals any NaN (sign and payload are not kept by JSON)", "edits of meta are top-level assignments; nested meta values shared between a copy and its source are probe-counted, "
                     "not judged (the property speaks of sample storage)",
                     "trim ties (time exactly between two samples) accept either neighbour",
                     "start >= end or an interval shorter than one sample is outside the judged domain"],
